@@ -390,6 +390,10 @@ class Parser:
       self.expect("}")
       self.form("concatenation")
       return self.cat_select(("cat", parts))
+    if t[0] == "id" and t[1] in ("$unsigned", "$signed"):
+      self.next(); self.expect("("); e = self.expr(); self.expect(")")
+      self.form(t[1])
+      return ("sgn", t[1] == "$signed", e)
     if t[0] == "id" and t[1] not in KEYWORDS:
       return self.primary_ident()
     raise SVError(f"unexpected token in expression: {t[1]!r}")
@@ -643,6 +647,7 @@ class Sim:
     if k == "cat": return sum(self.size(x, inst) for x in e[1])
     if k == "rep": return const_eval(e[1]) * sum(self.size(x, inst) for x in e[2])
     if k == "cast": return e[1]
+    if k == "sgn": return self.size(e[2], inst)          # $unsigned / $signed: same size, argument self-determined (11.7)
     if k == "sel":
       sl = e[2]
       if sl[0] == "idx": return 1
@@ -686,6 +691,7 @@ class Sim:
     if k == "num": return bool(e[3])
     if k == "id": return (not e[2]) and e[1] in self.loopvars and getattr(self, "loop_signed", {}).get(e[1], False)
     if k == "cast": return self.is_signed(e[2], inst)          # 6.24.1: a size cast passes the signedness through
+    if k == "sgn": return bool(e[1])
     if k == "un": return e[1] in ("-", "+", "~") and self.is_signed(e[2], inst)
     if k == "bin" and e[1] in ("+", "-", "*", "/", "%", "&", "|", "^"): return self.is_signed(e[2], inst) and self.is_signed(e[3], inst)
     return False
@@ -773,6 +779,10 @@ class Sim:
       if lo + w > bw or w < 1:
         self.flag("out-of-range-select(read as 0)"); return 0
       return (b >> lo) & mask(w)
+    if k == "sgn":
+      w0 = self.size(e[2], inst); v = self.ev(e[2], inst, w0)
+      if e[1] and W > w0 and v >> (w0 - 1): v |= mask(W) & ~mask(w0)          # $signed: sign-extended into a wider context
+      return v & mask(max(W, w0)) if W >= w0 else v & mask(W)
     if k == "cast":
       N = e[1]
       inner = self.size(e[2], inst)
@@ -946,7 +956,7 @@ def _expr_ids(e, out):
     for x in e[1]: _expr_ids(x, out)
   elif k == "rep":
     for x in e[2]: _expr_ids(x, out)
-  elif k == "cast": _expr_ids(e[2], out)
+  elif k in ("cast", "sgn"): _expr_ids(e[2], out)
   elif k == "sel":
     _expr_ids(e[1], out)
     for x in e[2][1:]:
